@@ -60,6 +60,27 @@ def check_doubling(case):
     same(out.array, np.transpose(D, order), "mixed-is-doubled-pure",
          common.show(d))
     same(out.array, qsem.cq_eval(spec), "mixed-vs-reference", common.show(d))
+    # a rotation of the circuit on its own, behind Hadamards, with its phase
+    # left symbolic and substituted after the (doubled) evaluation
+    from harness.props import c14
+    for b, _ in spec["layers"]:
+        if b.get("g") in qspec.ROT1 + qspec.ROT2 and not b.get("dag")\
+                and isinstance(b["a"][0], (int, float)):
+            n = len(specs.bdom(b))
+            head = [[{"k": "g", "g": "Ket", "a": [0] * n}, 0]] + [
+                [{"k": "g", "g": "H"}, i] for i in range(n)]
+            small = {"cls": "circuit", "dom": [], "layers": head + [[b, 0]]}
+            symbolic = specs.build(dict(small, layers=head + [
+                [dict(b, a=["x"]), 0]]))
+            later = c14.to_complex(np.asarray(symbolic.eval(
+                mixed=True).array, dtype=object), {"x": b["a"][0]})
+            amps = np.asarray(qsem.pure_eval(small), dtype=complex)
+            same(later, np.tensordot(np.conj(amps), amps, 0).reshape(-1)
+                 if n == 1 else np.transpose(np.tensordot(
+                     np.conj(amps), amps, 0), (0, 1, 2, 3)).reshape(-1),
+                 "symbolic-doubling", "{} at x = {}".format(
+                     common.show(symbolic), b["a"][0]))
+            break
     # measure(): Born rule on the outputs of Ket(0...0) >> d, post-selected
     # circuits without outputs included; with mixed=True the outputs are
     # discarded instead and the total weight is left
@@ -227,6 +248,46 @@ def check_circuit(case):
     return dict(nt=interleaved(spec) and measuring(spec), labels=sorted({
         b.get("g", "swap") for b, _ in spec["layers"]}),
         show=common.show(d, 250))
+
+
+def enum_coexistence(tier):
+    """ Circuits without any mixed box in which bits and qubits sit side by
+    side at one point only: at the start, in the middle, or in the final
+    codomain (the last box creates the coexistence). """
+    q, c = ["qubit", 0], ["bit", 0]
+    ket = lambda v: {"k": "g", "g": "Ket", "a": [v]}      # noqa: E731
+    bits = lambda v: {"k": "g", "g": "Bits", "a": [v]}    # noqa: E731
+    h, x = {"k": "g", "g": "H"}, {"k": "g", "g": "X"}
+    flip = {"k": "g", "g": "CGate", "a": ["p", 1, 1, [0, 1, 1, 0]]}
+    for v in (0, 1):
+        for gate in (None, h, x):
+            mid = [[gate, 0]] if gate else []
+            # qubit first, the bit comes last (right, left)
+            yield {"d": {"cls": "circuit", "dom": [], "layers":
+                         [[ket(v), 0]] + mid + [[bits(1 - v), 1]]}}
+            yield {"d": {"cls": "circuit", "dom": [], "layers":
+                         [[ket(v), 0]] + mid + [[bits(v), 0]]}}
+            # open qubit wire, the bit comes last
+            yield {"d": {"cls": "circuit", "dom": [q], "layers":
+                         mid + [[bits(v), 1]]}}
+            yield {"d": {"cls": "circuit", "dom": [q], "layers":
+                         mid + [[bits(v), 0]]}}
+        for gate in (None, flip):
+            mid = [[gate, 0]] if gate else []
+            # bit first, the qubit comes last
+            yield {"d": {"cls": "circuit", "dom": [], "layers":
+                         [[bits(v), 0]] + mid + [[ket(1 - v), 1]]}}
+            yield {"d": {"cls": "circuit", "dom": [c], "layers":
+                         mid + [[ket(v), 0]]}}
+            # coexistence in the middle only: the bit is closed again
+            yield {"d": {"cls": "circuit", "dom": [q], "layers":
+                         [[bits(v), 1]] + [[dict(g, a=list(g["a"]))
+                                            if g is flip else g, 1]
+                                           for g in ([gate] if gate else [])]
+                         + [[dict(bits(v), dag=True), 1]]}}
+        # coexistence in the domain only
+        yield {"d": {"cls": "circuit", "dom": [q, c], "layers":
+                     [[dict(bits(v), dag=True), 1], [h, 0]]}}
 
 
 @st.composite
@@ -400,6 +461,10 @@ core.register("C12", [
           "dagger types and dagger = adjoint"),
     Facet("circuits", circuit_cases, check_circuit, n_quick=500,
           shards_quick=8, rule=RULE),
+    Facet("coexistence", None, check_circuit, enum=enum_coexistence,
+          shards_quick=2, rule="circuits without mixed boxes whose bits and "
+          "qubits coexist at one point only (first, middle, last): is_mixed "
+          "and the default evaluation"),
     Facet("trace_preserving", tp_cases, check_tp, n_quick=300,
           shards_quick=4, rule="preparations, unitaries, measurements, "
           "discards, stochastic classical gates: get_counts / measure / "
